@@ -83,6 +83,8 @@ def build(q, world, quantifier="an", quantification=None, domain_wrap=None, shar
             return getattr(T(t[1]), t[2])(*t[3])
         if k == "callv":
             return getattr(T(t[1]), t[2])(*[T(a) for a in t[3]])
+        if k == "idxv":
+            return T(t[1])[T(t[2])]
         if k == "lit":
             return list(t[1]) if isinstance(t[1], tuple) else t[1]
         if k == "rawlit":
